@@ -36,6 +36,8 @@ func checkC05(c *Check) {
 	ruleEOFProvenance(c, p, "R05.6", true)
 	ruleBlocksCloseLatch(c, p, "R05.7")
 	ruleErrorsNotAbsorbed(c, p, "R05.8", readerSideFuncs(p), errAbsorbExempt)
+	ruleSyntheticEOF(c, p, "R05.9")
+	c.RuleDoc["R05.9"] = "io.EOF is synthesised only at the known end-of-stream decisions under their guards (an error of a mandatory field is never rewritten to a clean end)"
 }
 
 func checkC06(c *Check) {
